@@ -9,6 +9,8 @@ PLAN = {
     "C15": ["configsearch"],
     "C16": ["selection"],
     "C17": ["stdin"],
+    "C18": ["diff", "diffcorpus"],
+    "C20": ["carriers"],
     "C19": ["exitcode", "threads", "clifiles"],
 }
 TRACE_SPEC = {}
@@ -196,6 +198,177 @@ def src_selection(tier, seed):
 LARGE_LINES = [2500]
 
 
+SEG_TEXT = {
+    "same": "local s%d = %d\n",
+    "chg": "local   c%d   = %d\n",
+    "expand": "local t%d = {\n%d, 2 }\n",
+    "collapse": "local k%d = f(\n%d,\n2)\n",
+    "blank": "\n\n\n",
+    "move": "local zz%d = require(\"z%d\")\nlocal aa%d = require(\"a%d\")\n",
+}
+
+
+def seg_text(kind, i):
+    t = SEG_TEXT[kind]
+    return t % tuple([i] * t.count("%d"))
+
+
+def _diff_scenarios(pairs):
+    """pairs: list of (id, text, cfg dict (library), extra argv, meta sig)"""
+    exp = _expected_formats([(pid, text.encode(), cfg) for pid, text, cfg, _, _ in pairs])
+    scenarios = []
+    for pid, text, cfg, extra_argv, sig in pairs:
+        for fmt in ("unified", "json", "summary", "standard"):
+            argv = ["--check"] + ([] if fmt == "standard" else ["--output-format", fmt]) + extra_argv + ["f.lua"]
+            scenarios.append({"id": "%s:%s" % (pid, fmt), "tree": [{"path": "f.lua", "text": text, "expect": {"fmt": exp.get(pid)}, "class": "raw"}],
+                              "argv": argv, "diff_facts": {"path": "f.lua"}, "want_stdout": False,
+                              "meta": {"kind": "diff", "fmt": fmt, "sig": sig}})
+    return scenarios
+
+
+def src_diff(tier, seed):
+    raw, st = tlc_generate("MC_Diff", "MC_Diff_%s.cfg" % tier, "g_diff_" + tier)
+    raw.sort(key=lambda c: json.dumps(c, sort_keys=True))
+    pairs = []
+    for n, c in enumerate(raw):
+        text = "".join(seg_text(k, i + 1) for i, k in enumerate(c["segs"]))
+        sortreq = "move" in c["segs"]
+        if c["flag"] == "crlf":
+            text = text.replace("\n", "\r\n")
+        elif c["flag"] == "nonl":
+            text = text.rstrip("\n") if text.strip("\n") else text
+        cfg = {"sort_requires": {"enabled": True}} if sortreq else {}
+        pairs.append(("df%d" % n, text, cfg, ["--sort-requires"] if sortreq else [], "segs=%s;flag=%s" % ("+".join(sorted(set(c["segs"]))), c["flag"])))
+    return _diff_scenarios(pairs), st
+
+
+def src_diffcorpus(tier, seed):
+    """(original, formatted) pairs from the repository's own test inputs at several widths."""
+    import glob
+    from sources import CORPUS_DIRS
+    pairs = []
+    widths = [120, 40] if tier == "quick" else [120, 80, 40, 20]
+    for d, cfg in CORPUS_DIRS:
+        for f in sorted(glob.glob(os.path.join(vlib.REPO, "tests", d, "*.lua"))):
+            try:
+                text = open(f, encoding="utf-8").read()
+            except Exception:
+                continue
+            for w in widths:
+                c = dict(cfg)
+                c["column_width"] = w
+                argv = ["--column-width", str(w), "--syntax", cfg.get("syntax", "All")]
+                if cfg.get("collapse_simple_statement"):
+                    argv += ["--collapse-simple-statement", cfg["collapse_simple_statement"]]
+                pairs.append(("dc:%s/%s@%d" % (d, os.path.basename(f), w), text, c, argv, "corpus:%s/%s" % (d, os.path.basename(f))))
+    return _diff_scenarios(pairs), {"module": "(corpus pairs)", "states": 0, "distinct": 0, "cases": len(pairs) * 4}
+
+
+PROBE_PLAIN = ('local b = require("b")\nlocal a = require("a")\nlocal s = \'single\' .. "double" .. \'it"s\'\nf "str"\ng { 1 }\nh("p")\n'
+               'function foo(x) return x end\nif x then return end\nfoo (1)\n'
+               'local long = { aaaaaaaaaaaaaaaaaaaaaaaaaaaaaaaa, bbbbbbbbbbbbbbbbbbbbbbbbbbbbbbbbbbbbbbb, ccccccccccccccccccccccccccccccc, ddd }\n'
+               'do\n\tlocal nested = { 1,\n2 }\nend\n')
+PROBES = {
+    "plain": PROBE_PLAIN,
+    "spaces": PROBE_PLAIN, "spaces_tabwidth": PROBE_PLAIN,
+    "lua52": "goto done\ndo   local x = 1 end\n::done::\n",
+    "lua53": "local   x = 7 // 2 | 1\n",
+    "lua54": "local   x <const> = 1\n",
+    "luajit": "local   x = 1LL\n",
+    "luau": "local   x: number = if a then 1 else 2\n",
+}
+
+
+def toml_value(e):
+    if e["opt"] in ("column_width", "indent_width"):
+        return e["v"]
+    return '"%s"' % e["v"]
+
+
+def lib_cfg(e, probe):
+    cfg = {}
+    if e["opt"] == "sort_requires":
+        cfg["sort_requires"] = {"enabled": True}
+    elif e["opt"] in ("column_width", "indent_width"):
+        cfg[e["opt"]] = int(e["v"])
+    elif e["opt"]:
+        cfg[e["opt"]] = e["v"]
+    if probe.startswith("spaces"):
+        cfg["indent_type"] = "Spaces"
+    return cfg
+
+
+def src_carriers(tier, seed):
+    raw, st = tlc_generate("MC_Carriers", "MC_Carriers_%s.cfg" % tier, "g_carriers_" + tier)
+    raw.sort(key=lambda c: json.dumps(c, sort_keys=True))
+    reqs = {}
+    scenarios = []
+    for n, c in enumerate(raw):
+        e = c["entry"]
+        probe = PROBES[e["probe"]]
+        tree, argv = [], []
+        names = ["p1.lua", "p2.lua"][: c["nfiles"]]
+        if c["kind"] == "carrier":
+            cfg = lib_cfg(e, e["probe"])
+            key = json.dumps([e["probe"], cfg], sort_keys=True)
+            reqs[key] = (probe, cfg)
+            k = c["carrier"]
+            base_toml = ""
+            if e["probe"].startswith("spaces"):
+                # indent width only shows with spaces: set through the same kind of carrier where possible
+                if k in ("toml", "dottoml"):
+                    base_toml = 'indent_type = "Spaces"\n'
+                elif k.startswith("flag"):
+                    argv += ["--indent-type", "Spaces"]
+            if k in ("toml", "dottoml"):
+                line = "[sort_requires]\nenabled = true\n" if e["opt"] == "sort_requires" else "%s = %s\n" % (e["opt"], toml_value(e))
+                tree.append({"path": "stylua.toml" if k == "toml" else ".stylua.toml", "text": base_toml + line, "class": "raw"})
+            elif k.startswith("flag"):
+                v = e["v"]
+                if k == "flag_lower":
+                    v = v.lower()
+                elif k == "flag_upper":
+                    v = v.upper()
+                argv += [e["flag"]] if e["opt"] == "sort_requires" else [e["flag"], v]
+                # an unrelated stylua.toml is present: flags must still apply to every file of its directory
+                tree.append({"path": "stylua.toml", "text": "column_width = 120\n" if e["opt"] != "column_width" else "indent_width = 4\n", "class": "raw"})
+            elif k in ("ec", "ec_upper"):
+                val = e["ecval"].upper() if k == "ec_upper" else e["ecval"]
+                extra = "indent_style = space\n" if e["probe"].startswith("spaces") else ""
+                if e["probe"] == "spaces_tabwidth":
+                    extra += "indent_size = tab\n"
+                tree.append({"path": ".editorconfig", "text": "root = true\n\n[*.lua]\n%s%s = %s\n" % (extra, e["eckey"], val), "class": "raw"})
+            for nm in names:
+                tree.append({"path": nm, "text": probe, "tag": "probe", "class": "raw", "_key": key})
+            argv += names
+            sig = "opt=%s;v=%s;carrier=%s;n=%d" % (e["opt"], e["v"], k, c["nfiles"])
+        else:
+            mal = c["mal"]
+            text = {"misspelt_key": "colum_width = 80\n", "wrong_type": 'column_width = "eighty"\n', "unknown_table": "[format]\nwidth = 3\n",
+                    "invalid_enum": 'quote_style = "forcesingle"\n', "unknown_key_in_table": "[sort_requires]\nenable = true\n", "not_toml": "column_width 80 =\n"}[mal]
+            d = "" if c["loc"] == "cwd" else "sub/"
+            if c["carrier"] == "config_path":
+                tree.append({"path": "cfg/bad.toml", "text": text, "class": "raw"})
+                argv += ["--config-path", "cfg/bad.toml"]
+            else:
+                tree.append({"path": d + ("stylua.toml" if c["carrier"] == "toml" else ".stylua.toml"), "text": text, "class": "raw"})
+            tree.append({"path": "first.lua", "text": "local   first = 1\n", "tag": "probe", "class": "raw"})
+            tree.append({"path": d + "p1.lua", "text": "local   x = 1\n", "tag": "probe", "class": "raw"})
+            tree.append({"path": d + "p2.lua", "text": "local   y = 1\n", "tag": "probe", "class": "raw"})
+            argv += ["--num-threads", "1", d + "p1.lua", d + "p2.lua"] if c["loc"] == "cwd" else ["--num-threads", "1", "first.lua", d + "p1.lua", d + "p2.lua"]
+            sig = "malformed;loc=%s" % c["loc"]
+        scenarios.append({"id": "ca%d" % n, "tree": tree, "argv": argv, "meta": {"kind": "carrier", "c": c, "sig": sig}})
+    keys = list(reqs)
+    exp = _expected_formats([("r%d" % i, reqs[k][0].encode(), reqs[k][1]) for i, k in enumerate(keys)])
+    by_key = {k: exp.get("r%d" % i) for i, k in enumerate(keys)}
+    for sc in scenarios:
+        for ent in sc["tree"]:
+            k = ent.pop("_key", None)
+            if k is not None:
+                ent["expect"] = {"fmt": by_key.get(k)}
+    return scenarios, st
+
+
 def stdin_input(cls):
     if cls == "unformatted":
         return "local   x   =   1\nlocal t = {  1,2 }\n"
@@ -376,6 +549,9 @@ def src_threads(tier, seed):
 
 
 SOURCES = {
+    "carriers": src_carriers,
+    "diff": src_diff,
+    "diffcorpus": src_diffcorpus,
     "stdin": src_stdin,
     "selection": src_selection,
     "configsearch": src_configsearch,
@@ -383,3 +559,5 @@ SOURCES = {
     "exitcode": src_exitcode,
     "threads": src_threads,
 }
+
+
